@@ -349,7 +349,13 @@ def r_success_guard(ctx):
                         problems.append('the reported result `%s` is not the value of dispatching this entry' % a0.id)
                     # dispatch argument is the command of this entry
                     arg = R.apply_call.args[0] if R.apply_call.args else None
-                    if not (arg is not None and unparse(arg) == comp(0)):
+                    okarg = arg is not None and unparse(arg) == comp(0)
+                    if arg is not None and not okarg:
+                        # ... or a local that equals it on every path (`command, idx, term = entry`)
+                        an = U.node_containing(ex.cfg, R.apply_call)
+                        fss = res.facts_at(an.id)
+                        okarg = bool(fss) and all(_aliases(fs, ex.tb.term(arg), comp(0)) for fs in fss)
+                    if not okarg:
                         problems.append('the dispatch does not execute the command component of the loop entry')
                 else:
                     problems.append('the reported result is not a local holding the dispatch value')
@@ -647,3 +653,71 @@ def r_request_id_unique(ctx):
                               'the request id counter is overwritten (`%s`): a late reply for an old request then captures the callback of a new one' % unparse(st), instance=inst)
     # the table key is the counter value, and replies are matched by pop
     ctx.expect_min(2)
+
+
+@rule('R-leader-change-notified', 'when a follower adopts the sender of an append_entries as its leader, either the leader pointer '
+                                  'already named that node or the requests waiting for the old leader\'s reply have been failed '
+                                  '(the waiting-reply table was swept) on the way')
+def r_leader_change_notified(ctx):
+    """Requests forwarded to a leader wait in the reply table until the reply arrives or the table is swept with
+    LEADER_CHANGED.  If the node starts following another leader without the sweep, a request whose reply was lost stays
+    there for ever: its callback never fires and a synchronous caller blocks."""
+    P, R = ctx.P, ctx.R
+    h = R.handler
+    ex, res0, entry = U.region_run(ctx, 'append_entries')
+    cfg = ex.cfg
+    sender = R.handler_node_param
+    ctx.require(sender, 'sender parameter of the message handler not identified')
+    from .ownership import _role_funcs
+    sweeps = _role_funcs(ctx).get('sweep', set())
+    adopt = []
+    for n in cfg.nodes:
+        if n.kind == 'stmt' and isinstance(n.ast, ast.Assign) and res0.reached(n.id) and any(P.self_attr(t, h.self_name) == R.leaderPtr for t in n.ast.targets) \
+                and isinstance(n.ast.value, ast.Name) and n.ast.value.id == sender:
+            adopt.append(n)
+    ctx.require(adopt, 'the append_entries region no longer records the sender as the leader')
+
+    def ev(m):
+        if m.kind != 'stmt' or m.ast is None:
+            return ()
+        st = m.ast
+        # the table is emptied here ...
+        if isinstance(st, ast.Assign) and any(P.self_attr(t, h.self_name) == R.waitingReply for t in st.targets) and isinstance(st.value, (ast.Dict, ast.Call)) \
+                and not (isinstance(st.value, ast.Dict) and st.value.keys):
+            return ('swept',)
+        for c in [x for x in ast.walk(st) if isinstance(x, ast.Call)]:
+            if isinstance(c.func, ast.Attribute) and c.func.attr == 'clear' and P.self_attr(c.func.value, h.self_name) == R.waitingReply:
+                return ('swept',)
+            # ... or by a sweep method of the class
+            r = P.resolve_call(h, c)
+            if any(t in sweeps for t in r.targets):
+                return ('swept',)
+        return ()
+    regs = U.regions(ctx)['append_entries']
+    lit = ex.edge_literal(cfg.nodes[regs[0][0]], True)
+    init = frozenset([lit] if lit is not None else [])
+    res = ex.run(start=entry, init=init, track=ev, stop=[n.id for n in adopt], follow_exc=False)
+    for n in adopt:
+        inst = 'leader adopted at `%s`' % unparse(n.ast)
+        same = ('eq', ex.tb.term(U.parse_expr('self.%s' % R.leaderPtr)), ex.tb.term(ast.Name(id=sender, ctx=ast.Load())))
+        bad = None
+        cnt_states = 0
+        for fs, cnt in res.cstates.get(n.id, ()):
+            cnt_states += 1
+            ctx.tick()
+            if dict(cnt).get('swept', 0) >= 1:
+                continue
+            if oracle.entails(fs, same):
+                continue
+            bad = fs
+            break
+        if bad is not None:
+            ctx.violation('%s:leader-adopted-without-sweep' % h.qualname, h.loc(n.ast),
+                          'the node starts following `%s` on a path where the leader pointer may have named another node (or none) and the requests waiting for the old '
+                          'leader\'s reply were not failed: a forwarded request whose reply was lost never gets its callback: %s' % (sender, res.path_str(n.id, bad)),
+                          instance=inst)
+        elif cnt_states:
+            ctx.ok(inst, h.loc(n.ast), '%d path classes: the pointer already named the sender, or the waiting-reply table was swept' % cnt_states)
+        else:
+            ctx.unproven(inst, h.loc(n.ast), 'assignment not reached in the exploration')
+    ctx.expect_min(1)
